@@ -208,7 +208,10 @@ func (e *randEnv) project(ctx sdk.Context) any {
 	e.reqIDName(ctx, nil) // extends the id table up to this height
 	for hx, name := range e.idOf {
 		rid, _ := hex.DecodeString(hx)
-		if r, err := c.K.Random.GetRandom(ctx, rid); err == nil {
+		// read back the way a user does: the module's gRPC query under the hex request id
+		_ = rid
+		if resp, err := c.K.Random.Random(ctx, &randomtypes.QueryRandomRequest{ReqId: hx}); err == nil && resp != nil && resp.Random != nil {
+			r := resp.Random
 			results[name] = chain.M{"h": r.Height, "value": r.Value, "txh": short(r.RequestTxHash)}
 		}
 	}
@@ -380,6 +383,12 @@ func (e *randEnv) runBlock(begin chain.M, pending []chain.M, w *chain.TraceWrite
 	e.last = bs
 	for i, ev := range pending {
 		r := res.Txs[i]
+		if r.Aborted {
+			// member of a multi-message transaction that failed as a whole (chain.BundlePct):
+			// whatever it did was rolled back; the specification knows no such event and
+			// treats it as a rejection without effect
+			ev["name"] = "TxFailed"
+		}
 		ev["ok"], ev["panic"] = r.OK, r.Panic
 		st := r.State.(chain.M)
 		switch chain.Str(ev, "name") {
